@@ -11,12 +11,55 @@ from ..model import AnalysisError, ClassInfo, dotted, norm_src, own_nodes
 from ..util import names_in
 
 
+def _copy_is_deep(ctx, col):
+    """R-COPYDEEP: copy() of the table classes duplicates everything an object owns -- also what subclasses add (BranchTree.branches)."""
+    repo = ctx.repo
+    col.rule("R-COPYDEEP", "copy() of the SWC table classes is deep: it returns deepcopy(self), or, when it copies field by field from a shallow copy, it re-creates every mutable attribute "
+             "that any subclass declares (BranchTree.branches: the detached origin branches) -- otherwise copy and original share that state", floor=1)
+    cp = repo.get_def("swcgeom.core.swc.DictSWC.copy")
+    rets = [r for r in own_nodes(cp) if isinstance(r, ast.Return) and r.value is not None]
+    if any(isinstance(r.value, ast.Call) and (dotted(r.value.func) or "").rsplit(".", 1)[-1] == "deepcopy" and r.value.args and norm_src(r.value.args[0]) == "self" for r in rets) and len(rets) == 1:
+        col.ok("R-COPYDEEP", cp.qualname, cp.loc(rets[0]), "a copy shares nothing mutable with its original", "return deepcopy(self)", stmt="copydeep")
+        return
+    shallow = [c for c in own_nodes(cp) if isinstance(c, ast.Call) and c.args and norm_src(c.args[0]) == "self" and ((dotted(c.func) or "").rsplit(".", 1)[-1] in ("copy", "shallow_copy", "_copy", "copy_")
+               or (isinstance(c.func, ast.Attribute) and c.func.attr == "__new__"))]
+    if not shallow:
+        col.unresolved("R-COPYDEEP", cp.qualname, cp.loc(), "a copy shares nothing mutable with its original", "copy() is neither deepcopy(self) nor a shallow copy refilled field by field", stmt="copydeep")
+        return
+    rebound = {t.attr for a in own_nodes(cp) if isinstance(a, ast.Assign) for t in a.targets if isinstance(t, ast.Attribute) and isinstance(t.value, ast.Name) and t.value.id != "self"}
+    declared = {}
+    family = {"DictSWC"}
+    for _ in range(4):
+        for c in repo.classes.values():
+            if any((dotted(b) or "").rsplit(".", 1)[-1] in family for b in c.node.bases):
+                family.add(c.name)
+    for c in repo.classes.values():
+        if c.name not in family or c.name == "DictSWC":
+            continue
+        for st in c.node.body:
+            if isinstance(st, ast.AnnAssign) and isinstance(st.target, ast.Name) and any(k in norm_src(st.annotation) for k in ("dict", "list", "Dict", "List", "set", "NDArray", "ndarray")):
+                declared.setdefault(st.target.id, c.qualname)
+        for m in c.methods.values():
+            if m.is_lambda:
+                continue
+            for a in ast.walk(m.node):
+                if isinstance(a, ast.Assign) and isinstance(a.value, (ast.Dict, ast.List, ast.DictComp, ast.ListComp)):
+                    for t in a.targets:
+                        if isinstance(t, ast.Attribute) and isinstance(t.value, ast.Name):
+                            declared.setdefault(t.attr, c.qualname)
+    missing = sorted(k for k in declared if k not in rebound and k not in ("names", "types", "source"))
+    col.check(not missing, "R-COPYDEEP", cp.qualname, cp.loc(shallow[0]), "a copy shares nothing mutable with its original", f"re-created: {sorted(rebound)}",
+              f"copy() starts from a shallow copy and re-creates only {sorted(rebound)}; the mutable attribute(s) {', '.join(f'{k} (of {declared[k]})' for k in missing)} stay shared between the copy and "
+              f"the original: editing the origin branches of BranchTree.copy() edits the original's", stmt="copydeep", definite=True)
+
+
 def run(ctx, col, tier):
     repo = ctx.repo
     from ..rules import namesfwd as _namesfwd
     _namesfwd.run(ctx, col, ('swcgeom.core.tree', 'swcgeom.core.path', 'swcgeom.core.branch', 'swcgeom.core.node', 'swcgeom.core.compartment', 'swcgeom.core.branch_tree',
                              'swcgeom.core.tree_utils', 'swcgeom.core.tree_utils_impl', 'swcgeom.core.swc'), floor=2)
     _namesfwd.run_allcols(ctx, col, ('swcgeom.core.path.Path', 'swcgeom.core.branch.Branch', 'swcgeom.core.compartment.Compartment', 'swcgeom.core.node.Node', 'swcgeom.core.tree.Tree.Node', 'swcgeom.core.tree.Tree.Path', 'swcgeom.core.tree.Tree.Branch'))
+    col.guard(_copy_is_deep, ctx, col)
     from ..rules import idxguard as _idxguard
     _idxguard.run(ctx, col, ('swcgeom.core.tree', 'swcgeom.core.path', 'swcgeom.core.branch', 'swcgeom.core.node', 'swcgeom.core.compartment'), floor=1)
     from ..rules import smalllints as _small_own
